@@ -522,10 +522,17 @@ func isPointerLike(t types.Type) bool {
 	return false
 }
 
-// SuccessReturn matches returns that are (possibly) success exits.
+// SuccessReturn matches returns that are (possibly) success exits (the
+// synthetic recover block is not an exit of the source function).
 func (p *Prog) SuccessReturn(in ssa.Instruction) bool {
 	r, ok := in.(*ssa.Return)
-	return ok && p.ClassifyReturn(r) != retFailure
+	if !ok {
+		return false
+	}
+	if b := r.Block(); b.Index != 0 && len(b.Preds) == 0 {
+		return false
+	}
+	return p.ClassifyReturn(r) != retFailure
 }
 
 // FailureReturn matches returns that are definitely failure exits.
